@@ -316,6 +316,11 @@ func TestC18Concurrent(t *testing.T) {
 		}
 		g := 2 + r%7
 		m := 5 + r%8
+		if r%2 == 1 {
+			// rounds with a failing sender: fewer goroutines that keep sending for longer, so that successful
+			// sends happen before, between and after the failing ones (the reply queue holds ~150 datagrams)
+			g, m = 3, 35
+		}
 		ret := make([][]uint32, g)
 		var wg sync.WaitGroup
 		start := make(chan struct{})
@@ -335,9 +340,28 @@ func TestC18Concurrent(t *testing.T) {
 				}
 			}(i)
 		}
+		// fault injection: one more goroutine whose sends fail (a datagram larger than the socket's send
+		// buffer is refused with EMSGSIZE before anything reaches the wire) while the others succeed
+		failed := 0
+		if r%2 == 1 {
+			wg.Add(1)
+			go func() {
+				defer wg.Done()
+				big := make([]byte, 230*1024) // just above the default send buffer
+				<-start
+				for j := 0; j < 40; j++ {
+					if _, err := cl.Send(syscall.NetlinkMessage{Header: syscall.NlMsghdr{Type: 2999, Flags: syscall.NLM_F_REQUEST}, Data: big}); err != nil {
+						failed++
+					}
+				}
+			}()
+		}
 		close(start)
 		wg.Wait()
 		hC18.Eval()
+		if failed > 0 {
+			hC18.Class("concurrent-batch-with-failing-sends")
+		}
 		c := C18Case{Kind: "concurrent", Type: uint16(g), Flags: uint16(m)}
 		seen := map[uint32]bool{}
 		var all []uint32
